@@ -177,15 +177,23 @@ func (e *Exec) scenarioShape(path string, t types.Type, a string) ([]altFn, bool
 			if registered {
 				// schema with an id, registered in the generator's outputs under that id
 				schT := w.namedType("pkg/schemas", "Schema")
-				sr := s.alloc(mkStruct(schT, map[string]Val{"ID": atom("schema.ID")}))
+				dm := s.alloc(&MapAgg{Tag: "schema.Definitions"})
+				delete(s.Fresh, dm.Cell)
+				sr := s.alloc(mkStruct(schT, map[string]Val{"ID": atom("schema.ID"), "Definitions": MapV{Cell: dm.Cell}}))
 				delete(s.Fresh, sr.Cell)
 				s.CellTypes[sr.Cell] = schT
 				om := s.alloc(&MapAgg{Tag: "outputs", Keys: []Val{atom("schema.ID")}, Vals: []Val{or}})
 				delete(s.Fresh, om.Cell)
 				ga := s.Heap[gr.Cell].(*Agg)
 				if i := structFieldIndex(ga.Typ, "outputs"); i >= 0 {
-					s.Heap[gr.Cell] = ga.with(i, MapV{Cell: om.Cell})
+					ga = ga.with(i, MapV{Cell: om.Cell})
 				}
+				if i := structFieldIndex(ga.Typ, "inScope"); i >= 0 {
+					sc := s.alloc(&MapAgg{Tag: "inScope"})
+					delete(s.Fresh, sc.Cell)
+					ga = ga.with(i, MapV{Cell: sc.Cell})
+				}
+				s.Heap[gr.Cell] = ga
 				sgFields["schema"] = sr
 				sgFields["schemaFileName"] = atom("schemaFileName")
 			}
